@@ -1,4 +1,5 @@
-import MxlVerif.Lemmas.C20Real
+import MxlVerif.Lemmas.C20Cos
+import MxlVerif.Lemmas.C20Fit
 /-!
 C20 — fitting: losses measure discrepancy; fits are honest and spare the input.
 The loss definitions are `Mxl.C20.Gen.*`, written by translate/c20.py from the current fit/losses.py; the driver
@@ -149,52 +150,60 @@ theorem C20_mean_squared_logarithmic_not_scale_rewarded (d : List ℝ) (hd : ∀
   rw [((C20_mean_squared_logarithmic_nonneg_zero_iff d d rfl hd' hd').2).mpr rfl] at h2
   exact absurd this (not_le.mpr h2)
 
-/-! ### the two shipped functions that are NOT discrepancy measures -/
+/-! ### cosine_similarity: minus the cosine of the angle between data and prediction (after the repair) -/
 
-/-- F-C20-1  `cosine_similarity d p = −‖d‖·‖p‖`: scaling the data-shaped prediction up by any factor > 1 makes
-the "loss" strictly smaller than at the data itself — for every non-zero data vector. -/
-theorem C20_cosine_similarity_rewards_scale (d : List ℝ) (hd : ∃ x ∈ d, x ≠ 0) (lam : ℝ) (hlam : 1 < lam) :
-    cosine_similarity d (vmap (lam * ·) d) < cosine_similarity d d := by
-  have hs : 0 < vsum (vsquare d) := by
-    have hnn : ∀ z ∈ vsquare d, 0 ≤ z := by
-      intro z hz; simp only [vsquare, List.mem_map] at hz; obtain ⟨x, _, rfl⟩ := hz; exact mul_self_nonneg x
-    rcases lt_or_eq_of_le (vsum_nonneg _ hnn) with h | h
-    · exact h
-    · exfalso
-      obtain ⟨x, hx, hx0⟩ := hd
-      have := (vsum_eq_zero_iff _ hnn).mp h.symm (x * x) (by simp only [vsquare, List.mem_map]; exact ⟨x, hx, rfl⟩)
-      exact hx0 (mul_self_eq_zero.mp this)
-  have hn : 0 < norm2 d := Real.sqrt_pos.mpr hs
-  have hscale : norm2 (vmap (lam * ·) d) = lam * norm2 d := by
-    show Real.sqrt _ = lam * Real.sqrt _
-    rw [vsum_vsquare_scale, Real.sqrt_mul (mul_self_nonneg lam), Real.sqrt_mul_self (by linarith)]
+/-- what the driver evaluates at `Rat` (`cosineParts`) determines the generated definition: minus the inner
+product over the product of the roots of the squared norms -/
+theorem C20_cosine_similarity_from_parts (d p : List ℝ) :
+    cosine_similarity d p =
+      -(cosineParts d p).1 / (Real.sqrt (cosineParts d p).2.1 * Real.sqrt (cosineParts d p).2.2) := rfl
+
+/-- at the data the loss is −1 (any data vector with a non-zero entry) -/
+theorem C20_cosine_similarity_at_data (d : List ℝ) (hd : ∃ x ∈ d, x ≠ 0) : cosine_similarity d d = -1 := by
+  have hn := norm2_pos d hd
   unfold cosine_similarity
-  rw [hscale]
+  rw [vmul_self, ← norm2_mul_self d, neg_div, div_self (ne_of_gt (mul_pos hn hn))]
+
+/-- MINIMAL AT THE DATA (Cauchy–Schwarz): no prediction scores below the prediction that reproduces the data.
+Zero vectors are excluded on both sides: Python returns NaN there, the totalised division of ℝ would return 0. -/
+theorem C20_cosine_similarity_minimal_at_data (d p : List ℝ) (hd : ∃ x ∈ d, x ≠ 0) (hp : ∃ y ∈ p, y ≠ 0) :
+    cosine_similarity d d ≤ cosine_similarity d p := by
+  rw [C20_cosine_similarity_at_data d hd]
+  have hpos : 0 < norm2 d * norm2 p := mul_pos (norm2_pos d hd) (norm2_pos p hp)
+  unfold cosine_similarity
+  rw [le_div_iff₀ hpos]
+  have := inner_le_norm_mul_norm d p
+  linarith
+
+/-- SCALE INVARIANT: making the prediction larger by any positive factor does not change the loss … -/
+theorem C20_cosine_similarity_scale_invariant (d p : List ℝ) (lam : ℝ) (hlam : 0 < lam) :
+    cosine_similarity d (vmap (lam * ·) p) = cosine_similarity d p := by
+  unfold cosine_similarity
+  rw [norm2_scale lam (le_of_lt hlam), vsum_vmul_scale]
+  have : lam ≠ 0 := ne_of_gt hlam
+  by_cases h : norm2 d * norm2 p = 0
+  · rw [h, show norm2 d * (lam * norm2 p) = lam * (norm2 d * norm2 p) by ring, h]; simp
+  · field_simp
+
+/-- … so it is never rewarded below the value at the data -/
+theorem C20_cosine_similarity_not_scale_rewarded (d : List ℝ) (hd : ∃ x ∈ d, x ≠ 0) :
+    ¬ ∃ p : List ℝ, (∃ y ∈ p, y ≠ 0) ∧
+      ∀ lam : ℝ, 1 < lam → cosine_similarity d (vmap (lam * ·) p) < cosine_similarity d d := by
+  rintro ⟨p, hp, h⟩
+  have h2 := h 2 (by norm_num)
+  rw [C20_cosine_similarity_scale_invariant d p 2 (by norm_num)] at h2
+  exact absurd (C20_cosine_similarity_minimal_at_data d p hd hp) (not_le.mpr h2)
+
+/-- F-C20-1 (historical, why the repair exists): the pinned tree computed `−‖d‖·‖p‖`; scaling the data-shaped
+prediction up by any factor > 1 made the "loss" strictly smaller than at the data — for every non-zero data vector -/
+theorem C20_pinned_cosine_rewards_scale (d : List ℝ) (hd : ∃ x ∈ d, x ≠ 0) (lam : ℝ) (hlam : 1 < lam) :
+    pinnedCosine d (vmap (lam * ·) d) < pinnedCosine d d := by
+  have hn : 0 < norm2 d := norm2_pos d hd
+  unfold pinnedCosine
+  rw [norm2_scale lam (by linarith)]
   nlinarith [mul_pos hn hn]
 
-/-- the round-0 witness: −14 at the data [1,2,3], −140 at ten times the data -/
-theorem C20_cosine_similarity_witness :
-    cosine_similarity ([1, 2, 3] : List ℝ) [1, 2, 3] = -14 ∧
-    cosine_similarity ([1, 2, 3] : List ℝ) [10, 20, 30] = -140 := by
-  have h14 : Real.sqrt 14 * Real.sqrt 14 = 14 := Real.mul_self_sqrt (by norm_num)
-  have h1400 : Real.sqrt 1400 = 10 * Real.sqrt 14 := by
-    rw [show (1400 : ℝ) = 10 * 10 * 14 by norm_num, Real.sqrt_mul (by norm_num), Real.sqrt_mul_self (by norm_num)]
-  have a : norm2 ([1, 2, 3] : List ℝ) = Real.sqrt 14 := by
-    show Real.sqrt _ = _; congr 1; simp [vsquare, vsum]; norm_num
-  have b : norm2 ([10, 20, 30] : List ℝ) = Real.sqrt 1400 := by
-    show Real.sqrt _ = _; congr 1; simp [vsquare, vsum]; norm_num
-  unfold cosine_similarity
-  rw [a, b, h1400]
-  constructor <;> nlinarith
-
-/-- negation of the property for cosine_similarity: it is negative at the data and has no minimum there -/
-theorem C20_cosine_similarity_not_a_discrepancy :
-    ¬ ∀ d p : List ℝ, d.length = p.length →
-        0 ≤ cosine_similarity d p ∧ (cosine_similarity d p = 0 ↔ p = d) := by
-  intro h
-  have := (h [1, 2, 3] [1, 2, 3] rfl).1
-  rw [C20_cosine_similarity_witness.1] at this
-  norm_num at this
+/-! ### the shipped function that is NOT a discrepancy measure -/
 
 section field
 variable {α : Type} [Field α] [LinearOrder α] [IsStrictOrderedRing α]
@@ -279,17 +288,54 @@ end field
 
 /-! ### the property at full strength over the shipped set, its negation, and the partial form -/
 
-/-- FULL STATEMENT IS FALSE on the unchanged code: not every shipped loss is a discrepancy measure -/
-theorem C20_not_all_shipped_losses_good : ¬ ∀ n ∈ Gen.shipped, GoodLoss n := by
+/-- FULL STATEMENT IS FALSE on the unchanged code: not every shipped loss is minimal at the data (F-C20-2:
+`mean` of data [1] is 0 at the data and −100 at the prediction [101]) -/
+theorem C20_not_all_shipped_losses_minimal : ¬ ∀ n ∈ Gen.shipped, MinimalAtData n := by
   intro h
-  obtain ⟨L, dD, dP, hL, hgood⟩ := h "cosine_similarity" (by simp [Gen.shipped])
+  obtain ⟨L, dD, dP, hL, hmin⟩ := h "mean" (by simp [Gen.shipped])
   simp only [lossReal, Option.some.injEq, LossSpec.mk.injEq] at hL
   obtain ⟨rfl, rfl, rfl⟩ := hL
-  have := (hgood [1, 2, 3] [1, 2, 3] rfl (fun _ _ => trivial) (fun _ _ => trivial)).1
-  rw [C20_cosine_similarity_witness.1] at this
-  norm_num at this
+  have h1 := hmin [1] (vmap (· + 100) [1]) (by simp [vmap]) trivial trivial
+  rw [C20_mean_rewards_large_predictions [1] (by simp) 100] at h1
+  have h0 : Gen.mean ([1] : List ℝ) [1] = 0 := by simp [Gen.mean, vmean, vsub, vsum]
+  rw [h0] at h1
+  linarith
 
-/-- ... and it holds for every shipped loss except the two findings (F-C20-1 cosine_similarity, F-C20-2 mean) -/
+/-- ... and it holds for every shipped loss except the one finding (F-C20-2 mean): each is smallest, on its
+domain, when the prediction reproduces the data -/
+theorem C20_shipped_losses_minimal_at_data_partial :
+    ∀ n ∈ Gen.shipped, n ≠ "mean" → MinimalAtData n := by
+  intro n hn h2
+  simp only [Gen.shipped, List.mem_cons, List.mem_nil_iff, or_false] at hn
+  rcases hn with rfl | rfl | rfl | rfl | rfl | rfl | rfl
+  · exact ⟨_, _, _, rfl, fun d p _ hd hp => C20_cosine_similarity_minimal_at_data d p hd hp⟩
+  · exact GoodLoss.minimal ⟨_, _, _, rfl, fun d p hl _ _ => C20_mae_nonneg_zero_iff (fun _ => rfl) d p hl⟩
+      (fun _ _ _ h => by simp only [lossReal, Option.some.injEq, LossSpec.mk.injEq] at h; obtain ⟨_, _, rfl⟩ := h; intros; trivial)
+  · exact absurd rfl h2
+  · exact GoodLoss.minimal ⟨_, _, _, rfl, fun d p hl hd _ =>
+        C20_mean_absolute_percentage_nonneg_zero_iff (fun _ => rfl) d p hl hd⟩
+      (fun _ _ _ h => by simp only [lossReal, Option.some.injEq, LossSpec.mk.injEq] at h; obtain ⟨_, _, rfl⟩ := h; intros; trivial)
+  · exact GoodLoss.minimal ⟨_, _, _, rfl, fun d p hl _ _ => C20_mean_squared_nonneg_zero_iff d p hl⟩
+      (fun _ _ _ h => by simp only [lossReal, Option.some.injEq, LossSpec.mk.injEq] at h; obtain ⟨_, _, rfl⟩ := h; intros; trivial)
+  · exact GoodLoss.minimal ⟨_, _, _, rfl, fun d p hl hd hp => C20_mean_squared_logarithmic_nonneg_zero_iff d p hl hd hp⟩
+      (fun _ _ _ h => by
+        simp only [lossReal, Option.some.injEq, LossSpec.mk.injEq] at h
+        obtain ⟨_, rfl, rfl⟩ := h; intro d hd; exact hd)
+  · exact GoodLoss.minimal ⟨_, _, _, rfl, fun d p hl _ _ => C20_rmse_nonneg_zero_iff d p hl⟩
+      (fun _ _ _ h => by simp only [lossReal, Option.some.injEq, LossSpec.mk.injEq] at h; obtain ⟨_, _, rfl⟩ := h; intros; trivial)
+
+/-- the second clause is a corollary of the first for EVERY loss: a loss that is minimal at the data cannot score
+a scaled-up prediction below the data's own score (as long as the scaled prediction stays in the domain) -/
+theorem C20_minimal_at_data_not_scale_rewarded (n : String) (h : MinimalAtData n) :
+    ∃ L domD domP, lossReal n = some ⟨L, domD, domP⟩ ∧
+      ∀ (d p : List ℝ) (lam : ℝ), d.length = p.length → domD d → domP (vmap (lam * ·) p) →
+        ¬ L d (vmap (lam * ·) p) < L d d := by
+  obtain ⟨L, domD, domP, hL, hmin⟩ := h
+  exact ⟨L, domD, domP, hL, fun d p lam hl hd hp =>
+    not_lt.mpr (hmin d _ (by simp [vmap, hl]) hd hp)⟩
+
+/-- the five zero-based losses: never negative, zero exactly at the data (cosine_similarity is minimal at −1 on the
+whole ray through the data, `mean` is the finding) -/
 theorem C20_shipped_losses_good_partial :
     ∀ n ∈ Gen.shipped, n ≠ "cosine_similarity" → n ≠ "mean" → GoodLoss n := by
   intro n hn h1 h2
@@ -305,7 +351,7 @@ theorem C20_shipped_losses_good_partial :
   · exact ⟨_, _, _, rfl, fun d p hl _ _ => C20_rmse_nonneg_zero_iff d p hl⟩
 
 /-- non-vacuity of the partial form: the default loss of all three fit routines satisfies its hypothesis -/
-example : "rmse" ∈ Gen.shipped ∧ "rmse" ≠ "cosine_similarity" ∧ "rmse" ≠ "mean" ∧
+example : "rmse" ∈ Gen.shipped ∧ "rmse" ≠ "cosine_similarity" ∧ "rmse" ≠ "mean" ∧ "cosine_similarity" ≠ "mean" ∧
     Gen.defaultLoss = ["losses.rmse", "losses.rmse", "losses.rmse"] := by
   simp [Gen.shipped, Gen.defaultLoss]
 
@@ -353,6 +399,11 @@ theorem C20_bounds_follow_p0 (bounds : List (String × (Rat × Rat))) (names : L
   intro i h
   simp [fillBounds, h]
 
+/-- generated-table obligation: the global minimiser hands scipy the same per-name boxes, in the order of `p0`, as the
+local one (`fillBounds Gen.defaultBox`, `C20_bounds_follow_p0`) — on the pinned tree it passed the caller's dict on as
+it was and every global method except basinhopping raised -/
+theorem C20_global_bounds_follow_p0 : Gen.globalUsesBox = true := rfl
+
 /-- a failed minimisation is reported as a failure, never as a fit -/
 theorem C20_fit_failure_propagates {α : Type}
     (minimize : (List α → α) → List α → Option (List α × α))
@@ -382,5 +433,250 @@ last evaluated parameters. -/
 theorem C20_input_touched_without_copy :
     ((FitEnv.start false (0 : Nat)).run (fun _ p => p) [1, 2, 7]).caller = 7 := by
   decide
+
+/-! ### the fit drivers end to end (`fitDriver`): name routing, residual evaluations, wrapper, returned model -/
+
+/-- the scripted stand-in minimiser (the one the harness passes to the real drivers and the driver runs) honours the
+contract assumed of scipy: `C20_fit_honest`'s hypothesis is satisfiable by a minimiser that is actually run -/
+theorem C20_scripted_minimiser_meets_contract (cands : List (List Ext)) :
+    MinimiserContract (scriptedMinimise cands) :=
+  scriptedMinimise_contract Ext.le_refl' Ext.le_total' Ext.le_trans' cands
+
+/-- FIT DRIVER HONEST, no hypothesis left: with the scripted minimiser a successful fit reports the residual at the
+reported parameters, it is never worse than the start's (residuals may be `inf`), names are `p0`'s -/
+theorem C20_fit_driver_honest (sb dc : Bool) (y0 : Option (List (String × Ext))) (model : ModelVals Ext)
+    (p0 : List (String × Ext)) (cands : List (List Ext)) (residual : List (String × Ext) → Ext) (f : Fit Ext)
+    (h : (fitDriver sb dc y0 model p0 cands false residual).fit = some f) :
+    f.loss = residual f.bestPars ∧ f.loss ≤ residual p0 ∧ f.bestPars.map (·.1) = p0.map (·.1) := by
+  rw [fitDriver_fit] at h
+  exact C20_fit_honest _ (C20_scripted_minimiser_meets_contract cands) residual p0 f (by simpa using h)
+
+/-- A FAILED SIMULATION IS NEVER REPORTED AS THE FIT when the start could be simulated: under the contract a finite
+residual at `p0` forces a finite reported loss (`inf` is what the residual functions return for a failed run) -/
+theorem C20_fit_never_reports_failed_simulation
+    (minimize : (List Ext → Ext) → List Ext → Option (List Ext × Ext)) (hc : MinimiserContract minimize)
+    (residualFn : List (String × Ext) → Ext) (p0 : List (String × Ext)) (fit : Fit Ext)
+    (h : fitWrap (localScipyCall minimize) residualFn p0 = some fit) (x : Rat) (h0 : residualFn p0 = .fin x) :
+    ∃ y, fit.loss = .fin y := by
+  have := (C20_fit_honest minimize hc residualFn p0 fit h).2.1
+  rw [h0] at this
+  exact Ext.le_fin_is_fin _ _ this
+
+/-- generated-table obligation: the three fit routines end with `_set_best(model, parameters)` -/
+theorem C20_fit_sets_best : Gen.fitSetsBest = true := rfl
+
+/-- DRIVER SPARES THE INPUT: with `as_deepcopy=True` the caller's model is untouched — whatever `y0`, routing,
+candidates, failure or success, and including the final `_set_best` -/
+theorem C20_driver_input_untouched {α : Type} [LE α] [DecidableLE α] (sb : Bool) (y0 : Option (List (String × α)))
+    (model : ModelVals α) (p0 : List (String × α)) (cands : List (List α)) (fail : Bool)
+    (residual : List (String × α) → α) :
+    (fitDriver sb true y0 model p0 cands fail residual).caller = model := by
+  unfold fitDriver
+  simp only
+  generalize hu : (fun (m : ModelVals α) u => (applyUpdates y0 (routeNames model (p0.map (·.1))).1
+    (routeNames model (p0.map (·.1))).2 m u).getD m) = update
+  have hrun := FitEnv.run_copy update (scriptedTrace (p0.map (·.1)) cands (p0.map (·.2)))
+    (FitEnv.start true model) (by simp [FitEnv.start])
+  generalize FitEnv.run update (FitEnv.start true model) (scriptedTrace (p0.map (·.1)) cands (p0.map (·.2))) = E at hrun
+  have hc : E.caller = model := hrun.1
+  split
+  · split
+    · simp [FitEnv.evalResidual, hrun.2, hc]
+    · exact hc
+  · exact hc
+
+/-- ... and with `as_deepcopy=False` the caller's object IS the returned model (same values) -/
+theorem C20_driver_no_copy_is_shared {α : Type} [LE α] [DecidableLE α] (sb : Bool) (y0 : Option (List (String × α)))
+    (model : ModelVals α) (p0 : List (String × α)) (cands : List (List α)) (fail : Bool)
+    (residual : List (String × α) → α) :
+    (fitDriver sb false y0 model p0 cands fail residual).caller =
+      (fitDriver sb false y0 model p0 cands fail residual).work := by
+  unfold fitDriver
+  simp only
+  generalize hu : (fun (m : ModelVals α) u => (applyUpdates y0 (routeNames model (p0.map (·.1))).1
+    (routeNames model (p0.map (·.1))).2 m u).getD m) = update
+  have hrun := FitEnv.run_alias update (scriptedTrace (p0.map (·.1)) cands (p0.map (·.2)))
+    (FitEnv.start false model) (by simp [FitEnv.start]) (by simp [FitEnv.start])
+  generalize FitEnv.run update (FitEnv.start false model) (scriptedTrace (p0.map (·.1)) cands (p0.map (·.2))) = E at hrun
+  split
+  · split
+    · simp [FitEnv.evalResidual, hrun.2]
+    · exact hrun.1
+  · exact hrun.1
+
+/-- generated-table obligation: every residual function writes `y0` first, then the fitted parameters, then the fitted
+variables — the order `applyUpdates` has, which is what makes a candidate for a variable win over `y0` -/
+theorem C20_update_order : Gen.updateOrder = ["y0", "pars", "vars"] := rfl
+
+/-- CANDIDATE VALUES REACH THE MODEL: after the first lines of a residual function every fitted parameter the model
+has carries the candidate's value, every fitted variable too — EVEN IF `y0` names it (the candidate wins) —, and
+parameters that are not fitted keep their values -/
+theorem C20_updates_reach_the_model {α : Type} (y0 : Option (List (String × α))) (pN vN : List String)
+    (m m' : ModelVals α) (u : List (String × α)) (h : applyUpdates y0 pN vN m u = some m') :
+    (∀ n ∈ pN, hasName m.pars n = true → m'.pars.lookup n = u.lookup n) ∧
+    (∀ n ∈ vN, hasName m.vars n = true → m'.vars.lookup n = u.lookup n) ∧
+    (∀ n, n ∉ pN → m'.pars.lookup n = m.pars.lookup n) := by
+  have main : ∀ m1 : ModelVals α, m1.pars = m.pars → (∀ n, hasName m1.vars n = hasName m.vars n) →
+      ((setAll u pN m1.pars).bind fun pars => (setAll u vN m1.vars).bind fun vars =>
+        some ({ pars := pars, vars := vars } : ModelVals α)) = some m' →
+      (∀ n ∈ pN, hasName m.pars n = true → m'.pars.lookup n = u.lookup n) ∧
+      (∀ n ∈ vN, hasName m.vars n = true → m'.vars.lookup n = u.lookup n) ∧
+      (∀ n, n ∉ pN → m'.pars.lookup n = m.pars.lookup n) := by
+    intro m1 hp hv h
+    cases h2 : setAll u pN m1.pars with
+    | none => simp [h2] at h
+    | some pars =>
+      simp only [h2, Option.bind_some] at h
+      cases h3 : setAll u vN m1.vars with
+      | none => simp [h3] at h
+      | some vars =>
+        simp only [h3, Option.bind_some, Option.some.injEq] at h
+        subst h
+        refine ⟨fun n hn hl => ?_, fun n hn hl => ?_, fun n hn => ?_⟩
+        · exact (setAll_lookup u pN m1.pars pars h2 n).1 hn (by rw [hp]; exact hl)
+        · exact (setAll_lookup u vN m1.vars vars h3 n).1 hn (by rw [hv]; exact hl)
+        · rw [(setAll_lookup u pN m1.pars pars h2 n).2.1 hn, hp]
+  cases y0 with
+  | none =>
+    simp only [applyUpdates, Option.bind_eq_bind, Option.bind_some] at h
+    exact main m rfl (fun _ => rfl) h
+  | some y =>
+    simp only [applyUpdates, Option.bind_eq_bind] at h
+    cases h1 : updateVariables m y with
+    | none => simp [h1] at h
+    | some m1 =>
+      simp only [h1, Option.bind_some] at h
+      have := hasName_updateVariables y m m1 h1
+      exact main m1 this.1 this.2 h
+
+/-- NAME ROUTING: a name of `p0` is routed to the parameters exactly when the model has such a parameter, to the
+variables exactly when it has such a variable; a name that is neither reaches NOTHING (the residual cannot depend on it) -/
+theorem C20_name_routing {α : Type} (m : ModelVals α) (names : List String) (n : String) :
+    (n ∈ (routeNames m names).1 ↔ n ∈ names ∧ hasName m.pars n = true) ∧
+    (n ∈ (routeNames m names).2 ↔ n ∈ names ∧ hasName m.vars n = true) := by
+  simp [routeNames, List.mem_filter]
+
+/-- THE RETURNED MODEL IS AT THE REPORTED PARAMETERS: with `_set_best` (the generated shape) `Fit.model` is the working
+model after one more assignment of `best_pars` through the same routing (without `y0`); without it the returned model
+is wherever the minimiser's LAST evaluation left it -/
+theorem C20_returned_model_at_best {α : Type} [LE α] [DecidableLE α] (dc : Bool) (y0 : Option (List (String × α)))
+    (model : ModelVals α) (p0 : List (String × α)) (cands : List (List α)) (fail : Bool)
+    (residual : List (String × α) → α) (f : Fit α)
+    (h : (fitDriver Gen.fitSetsBest dc y0 model p0 cands fail residual).fit = some f) :
+    let last := (fitDriver false dc y0 model p0 cands fail residual).work
+    (fitDriver Gen.fitSetsBest dc y0 model p0 cands fail residual).work =
+      (applyUpdates none (routeNames model (p0.map (·.1))).1 (routeNames model (p0.map (·.1))).2 last f.bestPars).getD last := by
+  rw [fitDriver_fit] at h
+  simp only [C20_fit_sets_best]
+  unfold fitDriver
+  simp only [h, FitEnv.evalResidual, Bool.false_eq_true, if_false, if_true]
+
+/-- THE RETURNED MODEL HOLDS THE REPORTED VALUES (value level, no side condition): after a successful fit with the
+generated shape (`_set_best`), every fitted name that is a parameter of the model has in `Fit.model` exactly the value
+reported in `best_pars`, and every fitted name that is a variable has it as its initial condition — whatever `y0`, the
+candidates and the order of evaluation were -/
+theorem C20_returned_model_holds_best (dc : Bool) (y0 : Option (List (String × Ext))) (model : ModelVals Ext)
+    (p0 : List (String × Ext)) (cands : List (List Ext)) (residual : List (String × Ext) → Ext) (f : Fit Ext)
+    (h : (fitDriver Gen.fitSetsBest dc y0 model p0 cands false residual).fit = some f) :
+    (∀ n ∈ p0.map (·.1), hasName model.pars n = true →
+      (fitDriver Gen.fitSetsBest dc y0 model p0 cands false residual).work.pars.lookup n = f.bestPars.lookup n) ∧
+    (∀ n ∈ p0.map (·.1), hasName model.vars n = true →
+      (fitDriver Gen.fitSetsBest dc y0 model p0 cands false residual).work.vars.lookup n = f.bestPars.lookup n) := by
+  have hnames := (C20_fit_driver_honest Gen.fitSetsBest dc y0 model p0 cands residual f h).2.2
+  have hwork := C20_returned_model_at_best dc y0 model p0 cands false residual f h
+  simp only at hwork
+  rw [hwork, fitDriver_false_work]
+  generalize hpN : (routeNames model (p0.map (·.1))).1 = pN
+  generalize hvN : (routeNames model (p0.map (·.1))).2 = vN
+  generalize hlast : ((FitEnv.start dc model).run (fun m u => (applyUpdates y0 pN vN m u).getD m)
+    (scriptedTrace (p0.map (·.1)) cands (p0.map (·.2)))).work = last
+  have hlnames : ∀ n, hasName last.pars n = hasName model.pars n ∧ hasName last.vars n = hasName model.vars n := by
+    intro n
+    have := FitEnv.run_work_names y0 pN vN n (scriptedTrace (p0.map (·.1)) cands (p0.map (·.2))) (FitEnv.start dc model)
+    rw [hlast] at this
+    simpa [FitEnv.start] using this
+  have hroute := fun n => C20_name_routing model (p0.map (·.1)) n
+  have hsomeP : ∀ p ∈ pN, (f.bestPars.lookup p).isSome = true := by
+    intro p hp
+    have : p ∈ p0.map (·.1) := by rw [← hpN] at hp; exact ((hroute p).1.mp hp).1
+    exact lookup_isSome_of_mem_keys _ _ (by rw [hnames]; exact this)
+  have hsomeV : ∀ p ∈ vN, (f.bestPars.lookup p).isSome = true := by
+    intro p hp
+    have : p ∈ p0.map (·.1) := by rw [← hvN] at hp; exact ((hroute p).2.mp hp).1
+    exact lookup_isSome_of_mem_keys _ _ (by rw [hnames]; exact this)
+  obtain ⟨pars, hpars⟩ := Option.isSome_iff_exists.mp (setAll_isSome f.bestPars pN last.pars hsomeP)
+  obtain ⟨vars, hvars⟩ := Option.isSome_iff_exists.mp (setAll_isSome f.bestPars vN last.vars hsomeV)
+  have happ : applyUpdates none pN vN last f.bestPars = some ⟨pars, vars⟩ := by
+    simp [applyUpdates, hpars, hvars]
+  have hreach := C20_updates_reach_the_model none pN vN last ⟨pars, vars⟩ f.bestPars happ
+  rw [happ]
+  simp only [Option.getD_some]
+  refine ⟨fun n hn hm => ?_, fun n hn hm => ?_⟩
+  · have hin : n ∈ pN := by rw [← hpN]; exact (hroute n).1.mpr ⟨hn, hm⟩
+    exact hreach.1 n hin (by rw [(hlnames n).1]; exact hm)
+  · have hin : n ∈ vN := by rw [← hvN]; exact (hroute n).2.mpr ⟨hn, hm⟩
+    exact hreach.2.1 n hin (by rw [(hlnames n).2]; exact hm)
+
+/-- ENSEMBLE: failed fits are dropped, the others are kept in order -/
+theorem C20_ensemble_keeps_successes {α : Type} (fits : List (Option (Fit α))) (f : Fit α) :
+    f ∈ ensembleFits fits ↔ some f ∈ fits := by
+  simp [ensembleFits, List.mem_filterMap]
+
+/-- BEST FIT IS LEAST: `get_best_fit` returns a member of the ensemble whose loss is below every member's
+(`inf` losses included); it fails only on an empty ensemble -/
+theorem C20_best_fit_is_least (fits : List (Fit Ext)) :
+    (getBestFit fits = none ↔ fits = []) ∧
+    ∀ f, getBestFit fits = some f → f ∈ fits ∧ ∀ g ∈ fits, f.loss ≤ g.loss := by
+  cases fits with
+  | nil => simp [getBestFit]
+  | cons f0 rest =>
+    refine ⟨by simp [getBestFit], ?_⟩
+    intro f hf
+    simp only [getBestFit, Option.some.injEq] at hf
+    have := bestFit_fold_inv Ext.le_refl' Ext.le_total' Ext.le_trans' rest f0 [f0] (by simp)
+      (by intro g hg; simp at hg; subst hg; exact Ext.le_refl' _)
+    simp only [hf, List.singleton_append] at this
+    exact this
+
+/-- JOINT RESIDUAL: the sum is `inf` exactly when one of the residuals is (a failed simulation in ANY of the
+settings fails the candidate), and otherwise the sum of the numbers -/
+theorem C20_joint_residual_is_sum (rs : List Ext) :
+    (sumResiduals rs = .inf ↔ .inf ∈ rs) ∧
+    ∀ xs : List Rat, rs = xs.map .fin → sumResiduals rs = .fin (xs.foldl (· + ·) 0) := by
+  have key : ∀ (rs : List Ext) (a : Rat),
+      (rs.foldl (· + ·) (Ext.fin a) = .inf ↔ .inf ∈ rs) ∧
+      ∀ xs : List Rat, rs = xs.map .fin → rs.foldl (· + ·) (Ext.fin a) = .fin (xs.foldl (· + ·) a) := by
+    intro rs
+    induction rs with
+    | nil => intro a; refine ⟨by simp, ?_⟩; intro xs h; cases xs <;> simp_all
+    | cons r rs ih =>
+      intro a
+      cases r with
+      | fin x =>
+        have e : (Ext.fin a + Ext.fin x) = Ext.fin (a + x) := rfl
+        simp only [List.foldl_cons, e]
+        refine ⟨by simpa using (ih (a + x)).1, ?_⟩
+        intro xs h
+        cases xs with
+        | nil => simp at h
+        | cons y ys =>
+          simp only [List.map_cons, List.cons.injEq, Ext.fin.injEq] at h
+          obtain ⟨rfl, h⟩ := h
+          simpa using (ih (a + x)).2 ys h
+      | inf =>
+        have e : (Ext.fin a + Ext.inf) = Ext.inf := rfl
+        have hinf : ∀ l : List Ext, l.foldl (· + ·) Ext.inf = .inf := by
+          intro l
+          induction l with
+          | nil => rfl
+          | cons z l ihl => simp only [List.foldl_cons]; have : (Ext.inf + z) = Ext.inf := by cases z <;> rfl
+                            rw [this]; exact ihl
+        simp only [List.foldl_cons, e, hinf]
+        refine ⟨by simp, ?_⟩
+        intro xs h
+        cases xs with
+        | nil => simp at h
+        | cons y ys => simp at h
+  exact key rs 0
 
 end Mxl.C20
